@@ -5,7 +5,9 @@ From Dyce Require Import Base.Sums Base.Order.
 Import ListNotations.
 Open Scope Z_scope.
 
-Inductive exn := ValueError | TypeError | IndexError | ZeroDivisionError | RecursionError | UserError (id : nat).
+(* Python exception classes; [Unsupported] is not an exception: it marks inputs on which
+   the model declines to predict (the result leaves the exact-rational domain). *)
+Inductive exn := ValueError | TypeError | IndexError | ZeroDivisionError | RecursionError | UserError (id : nat) | Unsupported.
 Inductive res (A : Type) := Ok (a : A) | Err (e : exn).
 Arguments Ok {A} _.
 Arguments Err {A} _.
